@@ -295,6 +295,26 @@ Verdict(req, rep, obs) ==
         ELSE Partial206(req, rep, obs, rc))
   ELSE "UnexpectedStatus"
 
+\* ------------------------------------------------------------------ Range combined with validators
+\* RFC 7233 3.1: Range is evaluated after the preconditions of RFC 7232 and only if the result without it
+\* would be 200 -- "Range is ignored when a conditional GET would result in a 304"; the property: a 304 is
+\* produced "always when they [the validators] do [match] for GET / HEAD".  So with a Range header the
+\* 304 / 412 clauses are unchanged, and only a request that gets neither is judged by the range clauses.
+\* (A failed If-Match answered by 206 / 416 instead of 412 is not named by the property: drift.)
+InDomainRC(req, rep) ==
+  /\ req.method \in {"GET", "HEAD", "POST"}
+  /\ ~(req.im_p /\ req.inm_p)
+  /\ req.im_p => rep.etag_p
+  /\ req.range_p /\ (req.im_p \/ req.inm_p \/ req.ims_p) /\ ~req.ifr_p
+NoValidators(req) == [req EXCEPT !.inm_p = FALSE, !.im_p = FALSE, !.ims_p = FALSE]
+VerdictRC(req, rep, obs) ==
+  IF obs.exc # "" /\ obs.status # 416 THEN "Raised"
+  ELSE IF ~(req.method \in {"GET", "HEAD"}) THEN Verdict(NoValidators(req), rep, obs)
+  ELSE IF obs.status = 304 THEN (IF May304(req, rep) THEN "ok" ELSE "Sound304")
+  ELSE IF Must304(req, rep) THEN "Complete304"
+  ELSE IF obs.status = 412 THEN (IF May412(req, rep) THEN "ok" ELSE "Sound412")
+  ELSE Verdict(NoValidators(req), rep, obs)
+
 \* the plain function is_resource_modified (no If-Range processing): "not modified" is the 304 / 412 signal
 VerdictIRM(req, rep, modified) ==
   IF ~modified /\ ~(May304(req, rep) \/ May412(req, rep)) THEN "Sound304"
